@@ -38,7 +38,7 @@ class ToGFA2:
   @property
   def beg2(self):
     """The start coordinate of the alignment on the to segment"""
-    return self.to_coords[1]
+    return self.to_coords[0]
 
   @property
   def end2(self):
